@@ -1,26 +1,78 @@
 """What is claimed per property (feeds MANIFEST.json via tools/mkmanifest.py)."""
-HOOK_COMMITS = ["56a64ef"]
+HOOK_COMMITS = ["56a64ef", "eb21cc7"]
 ENGINES = [
-    {"name": "kreal", "path": "/verif/engines/kreal", "serves_properties": ["C01", "C06"],
-     "kind_free_text": "Kani proof harnesses (generated from engines/harnesses.py) over the real dashu crates as path dependencies on /repo; CBMC/CaDiCaL decides; counterexamples replayed natively (dev+release)"},
+    {"name": "kreal", "path": "/verif/engines/kreal",
+     "serves_properties": ["C01", "C02", "C05", "C06", "C07", "C09", "C10", "C12", "C13", "C14", "C15", "C16", "C17", "C19"],
+     "kind_free_text": "Kani proof harnesses (bodies in engines/kreal/src/h_*.rs, instantiated per shape/sign/form/configuration from engines/harnesses.py into gen.rs on every run) over the real dashu crates as path dependencies on /repo; CBMC 6.11 + CaDiCaL decide; counterexamples are replayed natively (dev and release) through the same harness body before a VIOLATION is printed"},
 ]
-NOTES = ("Every check is bounded model checking of the real code; bounds are stated per harness in the evidence file. "
-         "exit 0 = all obligations discharged; exit 1 = solver counterexample reproduced natively; exit 2 = inconclusive (never a pass).")
-BMC = "Holds for ALL inputs inside the stated bounds (solver verdict over the compiled code), nothing is claimed outside them. "
+NOTES = ("Every check is bounded model checking of the real code; bounds are stated per harness in the evidence file (coverage.bounds / coverage.harnesses). "
+         "exit 0 = all obligations discharged; exit 1 = solver counterexample reproduced natively; exit 2 = inconclusive (time-out, out of memory, vacuous witness, non-reproducing counterexample) - never reported as a pass. "
+         "./check --selftest <ID> runs the harness bodies natively on random inputs (development aid, not evidence).")
+BMC = "Holds for ALL inputs inside the stated bounds (SAT verdict over the compiled code, unwinding assertions on); nothing is claimed outside them. "
+TRUST = "Trusted: Kani 0.68/CBMC 6.11/CaDiCaL, the reference models in engines/kreal/src/oracle.rs and the per-harness oracles; force_bits selects arch/generic_* (the x86_64 carry intrinsics are outside). "
 CLAIMS = {
     "C01": {
-        "text": BMC + "Word-level add/sub kernels fully symbolic on 4 words (64- and 32-bit words); UBig/IBig +,- through the real operator layer for every operand length pair 0..3 words (thorough: 0..4), every sign pair and ownership form, result compared with a ripple-carry oracle and checked canonical.",
-        "note": "Trusted: Kani/CBMC/CaDiCaL, the 30-line oracles in engines/kreal/src/oracle.rs. Outside: operands > 4 words (quick: 3) with free contents, the x86_64 carry intrinsics.",
+        "text": BMC + "add/sub word kernels fully symbolic on 4 words (64- and 32-bit words); UBig/IBig + and - through the real operator layer for every operand length pair 0..3 words (thorough 0..4), every sign pair and ownership form, mixed UBig/IBig forms; multiplication kernels full width where the oracle shares elementary products (n x 1, 2x2; thorough 3x2), schoolbook/Karatsuba/sqr/mul_dword on structured words (all-ones / sparse / top-bit placements of a symbolic payload), UBig/IBig * for lengths 0..3, squaring shortcut, cubic, pow with one-word bases and exponents 0..7; every result compared with a ripple-carry / schoolbook oracle and checked canonical.",
+        "note": TRUST + "Outside: operands > 4 words with free contents, Toom-3 and the production thresholds (24/192 words), full-width products beyond schoolbook 3x2.",
+    },
+    "C02": {
+        "text": BMC + "Defining identity a = q*b + r with the range/sign of r (never a second divider): single/double-word division kernels with literal divisors over all (2 words) / structured (3-4 words) dividends, power-of-two divisors 2^k and 2^(W+k) with symbolic k over all dividends; UBig / % div_rem div_euclid rem_euclid div_rem_euclid div_rem_assign /= %= is_multiple_of for structured operands of 0..3 (thorough 4) words; IBig truncating forms for every sign pair; IBig Euclidean forms for |a|,|b| < 2^10 in the inline-only regime; division by zero panics in every form; ConstDivisor (10 literal divisors of every class) agrees with plain division.",
+        "note": TRUST + "Outside: divide-and-conquer division (> 32 words), unconstrained full-width reciprocal division, symbolic ConstDivisor moduli (CBMC runs out of memory), literals on which CBMC itself crashes (2^64-1).",
+    },
+    "C05": {
+        "text": BMC + "==, cmp, partial_cmp, abs_cmp, abs_eq between arbitrary canonical UBig/IBig of 0..3 (thorough 4) words with every capacity variant (default / tight / max-compact) against the mathematical order; Hash byte streams recorded by a custom Hasher are equal exactly for equal values; canonical-form producers: from_words with leading zeros, clone, clone_from onto every shape and capacity, sign plumbing (from_parts/into_parts/neg/abs/signum), ones(n), from_static_words; every arithmetic harness of C01/C02/C09 additionally asserts the canonical layout of its result.",
+        "note": TRUST + "Outside: FBig/RBig comparisons (floats and rationals are not reachable by this engine, see DESIGN 4), values > 4 words.",
     },
     "C06": {
-        "text": BMC + "FloatEncoding::encode/decode for f32 (all i32 mantissas x exponents -400..400) and f64 (all i64 x -1400..1400) against an integer reference model that is itself cross-checked against the compiler's int->float cast; all bit patterns for decode.",
-        "note": "Trusted: CBMC's bit-precise semantics of shifts/casts. Outside so far: big-integer / rational / FBig conversions (being added).",
+        "text": BMC + "FloatEncoding::encode/decode for f32 (all i32 x exponents -400..400) and f64 (all i64 x -1400..1400) against an integer reference model cross-checked against the compiler's int->float cast; all bit patterns for decode; From/TryFrom between the 12 primitive integer types (+bool) and UBig/IBig for every value / every integer of 0..3 words; to_f32/to_f64 (value, Exact flag, error sign) and TryFrom<UBig/IBig> for f32/f64 for integers of 0..4 (thorough 5) words.",
+        "note": TRUST + "Outside: TryFrom<f32/f64> for UBig/IBig (data-dependent shift amounts make CBMC run out of memory; a defect there - 1.5f32 converts to 1 - was observed natively and is documented, not decided), FBig/RBig conversions.",
+    },
+    "C07": {
+        "text": BMC + "from_le/be_bytes (unsigned and two's complement) for every byte string of the listed lengths 0..25; to_le/be_bytes of integers of 0..3 (thorough 4) words: exact bytes, minimal length (unsigned), two's complement meaning and round trip (signed); from_str_radix / from_str_with_radix_prefix on EVERY ASCII string of length 0..4 (thorough 5) for radices 2,3,7,8,10,16,32,36 against a reference parser (same number or both reject); power-of-two radices across the word boundary; Display of in_radix(r) for every value below 2^16 (thorough 2^64, 2^128).",
+        "note": TRUST + "Outside: strings that consist of underscores only (accepted as 0 by dashu; whether that is malformed is a judgement the property text does not settle), formatter flags (width/fill/+/#/0), to/from_chunks, inputs beyond the stated lengths, the 256-word chunk and divide-and-conquer converters.",
+    },
+    "C09": {
+        "text": BMC + "shift kernels fully symbolic (4 words, symbolic amount); UBig & | ^ for lengths 0..3 (thorough 4) in every form; IBig & | ^ ! against an explicit two's complement oracle: non-negative operands to 3 words, negative operands to 2 words (inline-only regime); << and >> by 10 amounts around the word multiples for lengths 0..3, IBig >> as floor division for negative values (<= 2 words quick, 3 words thorough); bit(n) with symbolic n, bit_len, trailing_zeros/ones, count_ones/zeros, is_power_of_two for every sign and length 0..3 (thorough 4); set_bit/clear_bit/split_bits/clear_high_bits at 11 positions; next_power_of_two; UBig::ones(n).",
+        "note": TRUST + "Outside: signed bit operations with a negative 3-word operand in the quick tier (thorough: may be undecided), amounts/positions other than the listed ones.",
+    },
+    "C10": {
+        "text": BMC + "The public rounding primitives: Round::round_low_part for the six modes (|integer| < 2^40, every sign of the low part and every relation to 1/2), round_fract::<B> for B in {2,3,10,16,36} and precisions 1..8 (every |fract| < B^p), round_ratio (|num| <= |den| < 2^10), and IBig + Rounding - each against the mathematical definition of the mode.",
+        "note": TRUST + "Outside: FBig::trunc/floor/ceil/round/fract/to_int/with_precision and the RBig rounding functions (float and rational operations need an integer model; base-10 digit splitting divides by a symbolic power, which was probed and does not finish - DESIGN 4).",
+    },
+    "C12": {
+        "text": BMC + "dashu-base gcd/gcd_ext for every pair of u8/u16 (thorough u32): common divisor and Bezout identity; sqrt_rem/cbrt_rem for every u8/u16/u32 (thorough u64); the no_std table-driven log2_bounds for EVERY u8 and u16 against exact floor/ceil(2^40 log2 n) tables (generated by integer arithmetic), u32/u64 through the 16-bit-prefix reduction; next_up/next_down for every finite f32; UBig nth_root on values below 2^n (incl. 0), sqrt/sqrt_rem below 2^16 (thorough 2^63), IBig::cbrt of negatives, ilog with power-of-two bases for 1..3 words, gcd/gcd_ext and remove on small operands, and every documented panic.",
+        "note": TRUST + "Outside: Lehmer gcd, Karatsuba square root and Newton nth_root on multi-word operands, ilog with non-power-of-two bases, the std (libm) log2 estimator, FBig/RBig log2_bounds.",
+    },
+    "C13": {
+        "text": BMC + "Rings with 8 literal moduli (single word with and without shift, double word with and without shift, 3-word with and without shift): + - * neg dbl sqr pow(0..5) and the assignment/by-reference forms on elements +-p (p < 2^12): residue equals the integer result reduced mod m (and is therefore in [0,m)); reduce() of every |a| < 2^32 for 6 small moduli; inv() in 6 small rings for every residue: Some(x) with a*x = 1 exactly when gcd(a,m) = 1; mixing two ConstDivisor instances panics.",
+        "note": TRUST + "Outside: symbolic moduli, multi-word exponents, residues with unconstrained multi-word contents.",
+    },
+    "C14": {
+        "text": BMC + "NumOrd in both directions between UBig/IBig of 0..3 words (32-bit words: 0..5) and every value of the 12 primitive integer types, and between UBig and IBig; NumHash byte streams of UBig/IBig and of the primitive u64/i64 (thorough u128/i128) of the same value are identical; AbsOrd/AbsEq mixed forms (with C05).",
+        "note": TRUST + "Outside: comparison with f32/f64 (data-dependent shift; a defect - UBig::ZERO.num_partial_cmp(&0.25f32) = Greater - was observed natively and is documented, not decided), FBig/RBig pairs.",
+    },
+    "C15": {
+        "text": BMC + "Differential and oracle-based agreement of call forms: the five ownership/assignment forms of + - * & | ^ and the forms of / % div_rem (C01/C02/C09 harnesses each instantiate every form against the same oracle), mixed UBig/IBig forms, primitive-operand forms, clone and clone_from onto every previous shape (equal and independent), x op= &x.clone() sequences, Reduced forms, and FBig << / <<= / >> / >>= on symbolic (significand, exponent, amount).",
+        "note": TRUST + "Outside: FBig operator vs Context method agreement and rational operator forms (need the integer model, DESIGN 4).",
+    },
+    "C16": {
+        "text": BMC + "Every harness of every property runs with Kani's panic, overflow, bounds, unwrap and unwinding assertions on, so absence of undocumented panics and termination within the derived loop bound is decided for each operation harnessed; documented panics are checked as 'always panics' (should_panic harness whose return point is unreachable): UBig underflow, division by zero in every form, gcd(0,0), zeroth/even-negative roots, ilog domain, mixing rings, exhausting the bump allocator; parsers return Err on every ASCII string of length <= 4 (thorough 5); IBig op primitive forms for six primitive types.",
+        "note": TRUST + "Known finding (printed, not an alarm): negative IBig % unsigned primitive panics. Outside: float operations (ln of a negative number etc.), operations not harnessed anywhere.",
+    },
+    "C17": {
+        "text": BMC + "Inductive step over the representation invariant: pre-state = any Repr of 0..4 words satisfying the invariant with default / tight / over-compact capacity; step = one Buffer operation (14 kinds) followed by from_buffer, clone, clone_from between every shape and capacity pair, every arithmetic/bit operator harness of C01/C02/C09, byte import/export, static words; post = invariant (inline iff <= 2 words, no leading zero, capacity within the compactness bound, zero positive) and all of CBMC's pointer checks (in-bounds, live object, no double free); the bump allocator's slices are disjoint and in bounds.",
+        "note": TRUST + "Outside: leaks (not a CBMC property), allocator failure, aliasing-model UB, sizes > 4-5 words.",
+    },
+    "C19": {
+        "text": BMC + "The kernel and operator suites of C01/C02/C07/C09/C05/C06/C14 are decided a second time with force_bits=\"32\" against oracles stated on values (so 64- and 32-bit builds agree on the common domain); the no_std table-driven log2 estimator is decided for every u8/u16 (C12); Kani builds keep debug assertions on.",
+        "note": TRUST + "Outside: the std (libm) log2 path, release builds without debug assertions (only the native replay runs --release), serde (feature not in the pinned build; generic visitor machinery is out of reach).",
     },
 }
-_TODO = "not built yet in this round (see DESIGN.md section 3 for the plan); will be claimed when its harnesses exist"
 NOT_APPLICABLE = {
+    "C03": "float add/sub/mul/div/sqrt run chains of 10-30 big-integer operations with data-dependent shift amounts and digit counts; on the real integer layer CBMC does not finish (symbolic-size buffers), and the planned integer-model engine was probed and does not finish either for base 10 (division by a symbolic power of the base). Only the rounding decision primitives are decided (claimed under C10). See DESIGN.md section 4.",
+    "C04": "rational arithmetic needs gcd/division loops on symbolic integers through the real integer layer (out of memory in CBMC) - not reachable; see DESIGN.md section 4",
+    "C08": "float parsing/printing/base conversion run on the float layer that is not reachable (see C03) - DESIGN.md section 4",
     "C11": "accuracy of exp/ln/pow against a transcendental true value cannot be stated as a bit-vector assertion without a second rigorous series evaluation; the series loops run on >100-bit integers with data-dependent trip counts - outside bounded symbolic execution (DESIGN.md section 4)",
+    "C18": "continued-fraction loops over rationals are built on the rational layer that is not reachable (see C04) - DESIGN.md section 4",
     "C20": "quantifies over programs expanded by a proc-macro at compile time; Kani cannot execute proc-macro crates symbolically (DESIGN.md section 4)",
 }
-for p in ["C02", "C03", "C04", "C05", "C07", "C08", "C09", "C10", "C12", "C13", "C14", "C15", "C16", "C17", "C18", "C19"]:
-    NOT_APPLICABLE[p] = _TODO
